@@ -792,6 +792,16 @@ impl Transaction {
             reader.read_exact(&mut sig)?;
             Some(redjubjub::Signature::from(sig))
         } else {
+            // Without Sapling spends or outputs there is no Sapling bundle to carry the value
+            // balance, so a non-zero one (which consensus forbids) would be silently dropped
+            // and the transaction would no longer serialize to the bytes its id was computed
+            // from.
+            if value_balance != ZatBalance::zero() {
+                return Err(io::Error::new(
+                    io::ErrorKind::InvalidInput,
+                    "valueBalanceSapling must be zero when there are no Sapling spends or outputs",
+                ));
+            }
             None
         };
 
